@@ -441,6 +441,8 @@ pub fn run(ctx: &Ctx) -> Report {
         }
         // long inputs: clauses with up to maxk literals and lists of up to maxk unit clauses
         lists.extend(long_lists(ctx.tier.pick(9, 14)));
+        // clause counts around the powers of two up to 70 (every position marked in turn)
+        lists.extend(long_unit_lists(&ctx.tier.pick(vec![31, 32, 33, 48, 64, 65], vec![15, 16, 17, 31, 32, 33, 47, 48, 49, 63, 64, 65, 70])));
         let chunks: Vec<&[Vec<Clause>]> = lists.chunks(64).collect();
         let fam = par_run(ctx, &chunks, |_, chunk| {
             let mut r = Report::default();
